@@ -108,7 +108,7 @@ def make_real_strategy(name, opts):
 
 
 def play_real(name, opts, kind, data, decider, abort_cls=RuntimeError, fail_at=None, max_tests=400, cut=None, touch=None,
-              vanish=False):
+              vanish=False, answers=(True, False)):
     """one run() of a real strategy on a real file under `decider(k, disk)`.
     fail_at=j makes the j-th rmslice() call raise (an internal strategy failure).
     Returns (Observed, orig_fields, run-as-script)"""
@@ -129,6 +129,7 @@ def play_real(name, opts, kind, data, decider, abort_cls=RuntimeError, fail_at=N
             return out
 
         s.test.decider = dec
+        s.test.answers = answers
         undo = None
         if fail_at is not None:
             cls = type(s.tc)
